@@ -308,19 +308,27 @@ def ob_files_concrete():
 
 def obligations(tier):
     obs = []
-    from harness import C02
+    from harness import C02, C04
 
-    nshort = len(C02.writer_kernels("short_textgrid"))
+    try:
+        nshort = len(C02.writer_kernels("short_textgrid"))
+    except AssertionError:
+        nshort = 0
     if tier == "quick":
         ml, T = 3, 600
-        for w in ("interval", "point", "name"):
-            obs.append(ob_long(w, ml, T))
-        for i in range(nshort):
-            obs.append(ob_short_field(i, ml, T))
+        try:
+            for w in ("interval", "point", "name"):
+                obs.append(ob_long(w, ml, T))
+            for i in range(nshort):
+                obs.append(ob_short_field(i, ml, T))
+        except AssertionError as e:
+            obs.append(C02.ob_anchor_error("field-kernels", str(e)))
         obs.append(ob_short_numrow(300))
         obs.append(ob_json_updown(2, 120))
         obs.append(ob_dict_object(2, 200))
+        obs.append(C04.ob_spans(2, 200))
     else:
+        obs.append(C04.ob_spans(3, 900))
         for w in ("interval", "point", "name"):
             obs.append(ob_long(w, 3, 3400))
             obs.append(ob_short(w, 2, 3400))
